@@ -666,7 +666,7 @@ class PropGen:
             alts = []
             mine = {}
             for _ in range(w):
-                topic = topics.pop()
+                topic = topics.pop() if topics else f'tp{len(schemas)}'
                 sch = random_schema(r, depth=1, kw_names=self.kw_names)
                 schemas[topic] = sch
                 alias = None
